@@ -162,7 +162,17 @@ def main():
 
     if a.replay:
         rp = json.load(open(a.replay))
-        out = mod.replay(rp)
+        ops = rp.get("ops") or []
+        stream_replay = getattr(getattr(mod, "P", None), "replay", None)
+        if (rp.get("kind") == "impl-violation" and ops and isinstance(ops[0], dict) and "op" not in ops[0]
+                and stream_replay is not None and getattr(mod.replay, "__func__", None) is getattr(stream_replay, "__func__", 0)):
+            # a failure found by a model-independent oracle of a stream property (no operation stream to re-run): run the
+            # property's exploration again with the tier and seed of the replay and look for the same clause
+            res = mod.run(rp.get("tier", "quick"), int(rp.get("seed", 0)))
+            hit = [f for f in res.get("impl_failures", []) if f.get("key") == rp.get("key")]
+            out = {"fails": bool(hit), "clause": rp.get("key"), "recurs_with": [f.get("ops") for f in hit][:1]}
+        else:
+            out = mod.replay(rp)
         print(json.dumps(out, indent=1, default=str)[:6000])
         return 1 if out.get("fails") else 0
 
